@@ -33,6 +33,7 @@ def decide_and_write(prop, pdef, tier, seed, results, wall, scratch):
     canaries = []
     solver_s = 0.0
     per_fn = {}
+    enum_cases = enum_nontrivial = 0
     for r in results:
         for u in r.get('undecided', []):
             undecided.append(f'{r["unit"]}: {u}')
@@ -40,7 +41,7 @@ def decide_and_write(prop, pdef, tier, seed, results, wall, scratch):
         for name, ob in r.get('obligations', {}).items():
             if prop in ob['props']:
                 involved = True
-                ob = dict(ob, backend='verus-z3' if r['engine'] == 'verus' else 'kani-cbmc')
+                ob = dict(ob, backend={'verus': 'verus-z3', 'kani': 'kani-cbmc', 'enum': 'native-exhaustive-enumeration'}[r['engine']])
                 if ob.get('bounded'):
                     bounded[name] = ob
                 else:
@@ -67,6 +68,8 @@ def decide_and_write(prop, pdef, tier, seed, results, wall, scratch):
                 drops[k] = drops.get(k, 0) + v
             canaries.extend(dict(c, unit=r['unit']) for c in r.get('canaries', []))
             solver_s += r.get('solver_s', 0.0)
+            enum_cases += sum(o.get('cases', 0) for o in r.get('obligations', {}).values() if prop in o['props'])
+            enum_nontrivial += sum(o.get('nontrivial', 0) for o in r.get('obligations', {}).values() if prop in o['props'])
             for k, v in r.get('per_fn_ms', {}).items():
                 per_fn[k] = v
 
@@ -102,7 +105,7 @@ def decide_and_write(prop, pdef, tier, seed, results, wall, scratch):
         lines.append(f'KNOWN-FINDING: property={prop} {k.get("what", f["obligation"])}')
     if new_failures:
         rc = 1
-        rdir = os.path.join(VERIF, 'replays')
+        rdir = os.environ.get('VERIF_REPLAY_DIR') or os.path.join(VERIF, 'replays')
         os.makedirs(rdir, exist_ok=True)
         by_ob = {}
         for f in new_failures:
@@ -115,7 +118,7 @@ def decide_and_write(prop, pdef, tier, seed, results, wall, scratch):
                        clause=odef.get('text'), repo_location=f.get('repo'), failing_expression=f.get('expr'),
                        verifier_message=f.get('message'), verifier_output=[x.get('rendered', '') for x in fs],
                        counterexample=f.get('counterexample'), replay_test=f.get('replay_test'),
-                       replay_result=f.get('replay_result'),
+                       replay_result=f.get('replay_result'), replay_enum=f.get('replay_enum'),
                        note='counterexample replayed against the real code' if f.get('replay_result') == 'reproduced'
                        else 'no-failing-input-found: the verifier gave no model that could be replayed; this obligation is discharged on the pinned tree and fails now')
             with open(path, 'w') as fh:
@@ -151,21 +154,27 @@ def decide_and_write(prop, pdef, tier, seed, results, wall, scratch):
         extraction_drops=drops,
         unverified_surroundings=pdef.get('out', []),
         canaries=canaries,
-        bounded=[dict(obligation=n, bound=o.get('bound'), result='failed' if n in failed_names else 'held-within-bound', clause=o.get('text')) for n, o in sorted(bounded.items())],
+        bounded=[dict(obligation=n, bound=o.get('bound'), cases=o.get('cases'), nontrivial=o.get('nontrivial'), result='failed' if n in failed_names else 'held-within-bound', clause=o.get('text')) for n, o in sorted(bounded.items())],
         known_findings=[k.get('what') for _, k in known_hit],
         undecided=undecided,
         exhaustive=False,
     )
     if level == 'other':
-        cov['explanation'] = pdef.get('explanation', '') + f' This run: {n_b} bounded harness(es), {n_bdis} held within their bound; {n_ob} unbounded obligation(s), {n_dis} discharged.'
-        cov['evaluations'] = n_b + n_ob
-        cov['distinct_nontrivial'] = n_bdis + n_dis
-        cov['rule'] = 'one evaluation = one verifier obligation (bounded Kani harness or unbounded Verus/Kani-complete obligation); non-trivial = harness generated >0 CBMC checks and its reachability cover was satisfied / Verus canary failed as it must'
+        cov['explanation'] = pdef.get('explanation', '') + f' This run: {n_b} bounded obligation(s), {n_bdis} held within their bound ({enum_cases} inputs enumerated, {enum_nontrivial} of them non-trivial); {n_ob} unbounded obligation(s), {n_dis} discharged.'
+        cov['evaluations'] = enum_cases + n_ob
+        cov['distinct_nontrivial'] = enum_nontrivial + n_dis
+        cov['rule'] = ('every input of the stated bound is generated exactly once (distinct by construction); an input is non-trivial when the oracle puts it on the interesting side '
+                       '(inside the grammar / actually rewritten / lists that share elements); unbounded obligations count one each')
+        cov['exhaustive'] = True
+        cov['exhaustive_note'] = 'exhaustive only WITHIN the stated bounds; nothing is claimed beyond them'
+    elif n_b:
+        cov['bounded_inputs_enumerated'] = enum_cases
     ev = dict(property_id=prop, tier=tier, seed=seed, level=level, coverage=cov,
               assumptions=sorted(set(pdef.get('assumptions', [])) | trusted),
               wall_s=round(wall, 2), violations=len({f['obligation'] for f in new_failures}))
-    os.makedirs(os.path.join(VERIF, 'evidence'), exist_ok=True)
-    with open(os.path.join(VERIF, 'evidence', prop + '.json'), 'w') as fh:
+    evdir = os.environ.get('VERIF_EVIDENCE_DIR') or os.path.join(VERIF, 'evidence')
+    os.makedirs(evdir, exist_ok=True)
+    with open(os.path.join(evdir, prop + '.json'), 'w') as fh:
         json.dump(ev, fh, indent=1)
     for l in lines:
         print(l)
